@@ -36,7 +36,7 @@ type Ev struct {
 	Output  []byte
 	GasUsed uint64
 	Err     error
-	JP      int64 // join point run type (4 pre-call, 8 post-call)
+	JP      int64 // join point run type (2 pre-tx, 4 pre-call, 8 post-call, 16 post-tx)
 	Aspect  common.Address
 	ResGas  uint64 // AspExit: gas left reported by the Aspect
 }
@@ -69,19 +69,27 @@ func Build(evs []Ev, revertText string) (*Node, error) {
 	var root *Node
 	var stack []*Node
 	var gasLimit uint64
+	pending := false // root created by a transaction-level Aspect before Start
 	for i, e := range evs {
 		switch e.K {
 		case TxStart:
 			gasLimit = e.Gas
 		case Start:
-			if root != nil || len(stack) != 0 {
+			if (root != nil && !pending) || len(stack) != 0 {
 				return nil, fmt.Errorf("event %d: second Start", i)
 			}
 			typ := byte(0xf1)
 			if e.Create {
 				typ = 0xf0
 			}
-			root = &Node{Typ: typ, From: e.From, To: e.To, Input: e.Input, Gas: gasLimit}
+			if pending {
+				// Aspects of the transaction-level pre join point ran before the top-level frame was announced:
+				// they belong to it
+				root.Typ, root.From, root.To, root.Input, root.Gas = typ, e.From, e.To, e.Input, gasLimit
+				pending = false
+			} else {
+				root = &Node{Typ: typ, From: e.From, To: e.To, Input: e.Input, Gas: gasLimit}
+			}
 			stack = append(stack, root)
 		case Enter:
 			if len(stack) == 0 {
@@ -118,10 +126,19 @@ func Build(evs []Ev, revertText string) (*Node, error) {
 				root.GasUsed = gasLimit - e.Gas
 			}
 		case AspEnter:
-			if len(stack) == 0 {
-				return nil, fmt.Errorf("event %d: Aspect outside any frame", i)
+			var top *Node
+			switch {
+			case len(stack) > 0:
+				top = stack[len(stack)-1]
+			case root == nil:
+				// before the top-level frame: transaction-level pre join point
+				root = &Node{}
+				pending = true
+				top = root
+			default:
+				// before the top-level frame (again) or after it ended: transaction-level join points
+				top = root
 			}
-			top := stack[len(stack)-1]
 			if top.running != nil {
 				return nil, fmt.Errorf("event %d: Aspect entered while another runs at the same frame", i)
 			}
@@ -129,10 +146,15 @@ func Build(evs []Ev, revertText string) (*Node, error) {
 			top.JPs = append(top.JPs, a)
 			top.running = a
 		case AspExit:
-			if len(stack) == 0 || stack[len(stack)-1].running == nil {
+			var top *Node
+			if len(stack) > 0 {
+				top = stack[len(stack)-1]
+			} else {
+				top = root
+			}
+			if top == nil || top.running == nil {
 				return nil, fmt.Errorf("event %d: Aspect exit without enter", i)
 			}
-			top := stack[len(stack)-1]
 			a := top.running
 			a.GasUsed = a.Gas - e.ResGas
 			a.setResult(e.Output, e.Err, revertText, true)
@@ -140,7 +162,7 @@ func Build(evs []Ev, revertText string) (*Node, error) {
 			top.running = nil
 		}
 	}
-	if root == nil {
+	if root == nil || pending {
 		return nil, fmt.Errorf("no Start event")
 	}
 	return root, nil
